@@ -4,6 +4,7 @@ use grin_chain::{Chain, Options, Tip};
 use grin_core::core::hash::Hashed;
 use grin_core::core::{Block, Transaction};
 use grin_core::global::{self, ChainTypes};
+use grin_keychain::Keychain;
 use grin_util::ToHex;
 use serde_json::{json, Value};
 use vcommon::chainkit::*;
@@ -246,6 +247,165 @@ fn recover(args: &Args) -> i32 {
 	0
 }
 
+/// Chain-level clause of C08: compaction leaves head, roots, unspent set and full validation unchanged
+/// and still permits reorganisations inside the horizon. A compacted node and a never-compacted twin
+/// receive the same blocks: a long chain whose last blocks spend whole runs of old outputs (so
+/// compaction prunes complete subtrees and siblings), then a fork that replaces the last `depth`
+/// blocks, then a block that re-spends outputs the dropped blocks had spent.
+fn compact_reorg(args: &Args) -> i32 {
+	let dir = args.req("dir").to_string();
+	let _ = std::fs::remove_dir_all(&dir);
+	std::fs::create_dir_all(&dir).unwrap();
+	let n = args.u64("blocks", 88);
+	let depth = args.u64("depth", 2);
+	let seed = args.u64("seed", 1);
+	let node = init_chain(&format!("{}/node", dir)).unwrap();
+	let twin = init_chain(&format!("{}/twin", dir)).unwrap();
+	let mut out = json!({});
+	let mut problems: Vec<Value> = vec![];
+	// phase 1: common prefix, each block h>=4 spends the coinbase of h-3 into 2 outputs
+	let prefix = n - 6;
+	let blocks = grow_chain(&node, 1, prefix, 2);
+	for b in &blocks {
+		twin.process_block(b.clone(), Options::SKIP_POW).expect("twin prefix");
+	}
+	// phase 2: 6 blocks that also spend ALL transaction outputs of two consecutive old blocks each
+	// (old = far below the horizon), picked from the seed
+	let mut spent_by: Vec<(u64, Vec<(u64, u64)>)> = vec![]; // (block id, [(old block, j)])
+	for k in 0..6u64 {
+		let prev = node.head_header().unwrap();
+		let h = prev.height + 1;
+		let old = 10 + 6 * k + 2 * (seed % 3); // distinct pairs (old, old+1) of blocks far below the horizon
+		let mut ins: Vec<In> = vec![(cb_value_of(&node, h - 3), kid_cb(h - 3), true)];
+		let mut total = cb_value_of(&node, h - 3);
+		let mut olds = vec![];
+		for ob in [old, old + 1] {
+			if spent_by.iter().any(|(_, v)| v.iter().any(|(b, _)| *b == ob)) {
+				continue;
+			}
+			// outputs of block ob: coinbase_fanout_tx(cb(ob-3)) into 2 outputs keyed (ob, j)
+			let v = cb_value_of(&node, ob - 3) - FEE;
+			let each = v / 2;
+			for j in 0..2u64 {
+				let val = if j == 0 { v - each } else { each };
+				ins.push((val, kid_out(ob, j), false));
+				total += val;
+				olds.push((ob, j));
+			}
+		}
+		let outs = vec![(total - FEE, kid_out(h, 0))];
+		let tx = spend_tx(&ins, &outs, FEE);
+		let b = make_block(&node, &prev, h, 1, &[tx]);
+		node.process_block(b.clone(), Options::SKIP_POW).expect("node phase2");
+		twin.process_block(b.clone(), Options::SKIP_POW).expect("twin phase2");
+		spent_by.push((h, olds));
+	}
+	let head_before = node.head().unwrap();
+	let roots_before = roots_hex(&node);
+	// compaction on the node only
+	let cr = node.compact();
+	out["compact"] = json!(format!("{:?}", cr));
+	if cr.is_err() {
+		problems.push(json!({"what": "compact_error", "err": format!("{:?}", cr)}));
+	}
+	if node.head().unwrap().last_block_h != head_before.last_block_h || roots_hex(&node) != roots_before {
+		problems.push(json!({"what": "compaction_changed_head_or_roots"}));
+	}
+	if let Err(e) = node.validate(false) {
+		problems.push(json!({"what": "validate_after_compaction", "err": format!("{:?}", e)}));
+	}
+	// reorg: replace the last `depth` blocks by a heavier empty fork (built on the twin, which has everything)
+	let fork_parent = twin.get_header_by_height(n - depth).unwrap();
+	let mut prev = fork_parent.clone();
+	let mut fork = vec![];
+	for k in 0..depth {
+		let id = 700 + k;
+		let b = make_block(&twin, &prev, id, if k + 1 == depth { 10 } else { 1 }, &[]);
+		twin.process_block(b.clone(), Options::SKIP_POW).expect("twin fork");
+		prev = b.header.clone();
+		fork.push(b);
+	}
+	for b in &fork {
+		let r = std::panic::catch_unwind(std::panic::AssertUnwindSafe(|| node.process_block(b.clone(), Options::SKIP_POW)));
+		match r {
+			Ok(Ok(_)) => {}
+			Ok(Err(e)) => problems.push(json!({"what": "fork_block_rejected_after_compaction", "height": b.header.height, "err": format!("{:?}", e)})),
+			Err(_) => problems.push(json!({"what": "fork_block_panic_after_compaction", "height": b.header.height})),
+		}
+	}
+	let cmp = |tag: &str, problems: &mut Vec<Value>| {
+		if node.head().unwrap().last_block_h != twin.head().unwrap().last_block_h {
+			problems.push(json!({"what": format!("{}:head_differs_from_twin", tag)}));
+		}
+		if roots_hex(&node) != roots_hex(&twin) {
+			problems.push(json!({"what": format!("{}:roots_differ_from_twin", tag)}));
+		}
+		let kc = keychain();
+		// every output the dropped blocks had spent must be unspent again, like on the twin
+		for (h, olds) in &spent_by {
+			if *h <= n - depth {
+				continue;
+			}
+			for (ob, j) in olds {
+				let v = cb_value_of(&twin, ob - 3) - FEE;
+				let each = v / 2;
+				let val = if *j == 0 { v - each } else { each };
+				let c = kc.commit(val, &kid_out(*ob, *j), grin_keychain::SwitchCommitmentType::Regular).unwrap();
+				let a = std::panic::catch_unwind(std::panic::AssertUnwindSafe(|| node.get_unspent(c).ok().flatten().map(|x| x.1.pos)));
+				let b = twin.get_unspent(c).ok().flatten().map(|x| x.1.pos);
+				match a {
+					Ok(a) => {
+						if a != b {
+							problems.push(json!({"what": format!("{}:unspent_differs_from_twin", tag), "old_block": ob, "j": j, "node": a, "twin": b}));
+						}
+					}
+					Err(_) => problems.push(json!({"what": format!("{}:get_unspent_panic", tag), "old_block": ob})),
+				}
+			}
+		}
+		let v = std::panic::catch_unwind(std::panic::AssertUnwindSafe(|| node.validate(false)));
+		match v {
+			Ok(Ok(())) => {}
+			Ok(Err(e)) => problems.push(json!({"what": format!("{}:validate_failed", tag), "err": format!("{:?}", e)})),
+			Err(_) => problems.push(json!({"what": format!("{}:validate_panic", tag)})),
+		}
+	};
+	cmp("after_reorg", &mut problems);
+	// a block re-spending what the dropped head had spent must be accepted by both
+	if let Some((_, olds)) = spent_by.iter().rev().find(|(h, o)| *h > n - depth && !o.is_empty()) {
+		let prevh = twin.head_header().unwrap();
+		let h = prevh.height + 1;
+		let mut ins: Vec<In> = vec![];
+		let mut total = 0;
+		for (ob, j) in olds {
+			let v = cb_value_of(&twin, ob - 3) - FEE;
+			let each = v / 2;
+			let val = if *j == 0 { v - each } else { each };
+			ins.push((val, kid_out(*ob, *j), false));
+			total += val;
+		}
+		let tx = spend_tx(&ins, &[(total - FEE, kid_out(800, 0))], FEE);
+		let b = make_block(&twin, &prevh, 800, 1, &[tx]);
+		twin.process_block(b.clone(), Options::SKIP_POW).expect("twin respend");
+		let r = std::panic::catch_unwind(std::panic::AssertUnwindSafe(|| node.process_block(b.clone(), Options::SKIP_POW)));
+		match r {
+			Ok(Ok(_)) => {}
+			Ok(Err(e)) => problems.push(json!({"what": "respend_rejected_after_compaction_and_reorg", "err": format!("{:?}", e)})),
+			Err(_) => problems.push(json!({"what": "respend_panic_after_compaction_and_reorg"})),
+		}
+		let _ = h;
+		cmp("after_respend", &mut problems);
+	}
+	out["problems"] = json!(problems);
+	out["head_height"] = json!(node.head().unwrap().height);
+	out["spent_old"] = json!(spent_by.iter().map(|(h, o)| json!([h, o])).collect::<Vec<_>>());
+	println!("{}", out);
+	drop(node);
+	drop(twin);
+	let _ = std::fs::remove_dir_all(&dir);
+	0
+}
+
 fn main() {
 	quiet_panics();
 	global::set_local_chain_type(ChainTypes::AutomatedTesting);
@@ -255,6 +415,7 @@ fn main() {
 		Some("prepare") => prepare(&args),
 		Some("run") => run(&args),
 		Some("recover") => recover(&args),
+		Some("compact_reorg") => compact_reorg(&args),
 		_ => {
 			eprintln!("crash prepare|run|recover");
 			2
